@@ -1685,3 +1685,312 @@ func ruleModeFlagsAfterEncoderLock(c *Ctx, rule string) {
 		c.unresolvedRoot("capability queries in beginCommand")
 	}
 }
+
+// ruleNoOvertakingHeldItem: C12.q / C03.q. A one-slot hold-back buffer (LIST
+// with RETURN (STATUS): the mailbox is held until its STATUS arrives) keeps
+// the order of delivery: while an item may be held in the slot, no other item
+// is sent on the same channel ahead of it. Every send of a value that is not
+// the slot's content happens where the slot is known empty (tested nil or
+// just flushed) or where the hold-back mode is off.
+func ruleNoOvertakingHeldItem(c *Ctx, rule string) {
+	p := c.P
+	funcs := p.SrcFuncs("imapclient")
+	// slots: pointer fields whose content is sent on a channel field of the same struct
+	type slotInfo struct {
+		slot, ch *types.Var
+	}
+	var slots []slotInfo
+	seenSlot := map[*types.Var]bool{}
+	for _, fn := range funcs {
+		allInstrs(fn, func(i ssa.Instruction) {
+			sd, ok := i.(*ssa.Send)
+			if !ok {
+				return
+			}
+			rs, ok1 := loadedField(sd.X)
+			rc, ok2 := loadedField(sd.Chan)
+			if ok1 && ok2 && rs.Field != nil && rc.Field != nil && rs.Owner != nil && rs.Owner == rc.Owner && !seenSlot[rs.Field] {
+				seenSlot[rs.Field] = true
+				slots = append(slots, slotInfo{rs.Field, rc.Field})
+			}
+		})
+	}
+	if len(slots) == 0 {
+		c.unresolvedRoot("one-slot hold-back buffers (a field sent on a channel of the same struct)")
+		return
+	}
+	n := 0
+	for _, sl := range slots {
+		// the mode flags: boolean fields of the same struct under whose true edge the slot is filled
+		modes := map[*types.Var]bool{}
+		for _, fn := range funcs {
+			pd := postDominators(fn)
+			allInstrs(fn, func(i ssa.Instruction) {
+				st, ok := i.(*ssa.Store)
+				if !ok || isNilConst(st.Val) {
+					return
+				}
+				r, ok := fieldOf(st.Addr)
+				if !ok || r.Field != sl.slot {
+					return
+				}
+				for x := range transitiveDeps(fn, pd, st.Block()) {
+					ifi, isIf := x.Instrs[len(x.Instrs)-1].(*ssa.If)
+					if !isIf {
+						continue
+					}
+					for _, f := range fieldsInCond(ifi.Cond, map[ssa.Value]bool{}) {
+						if b, ok := f.Field.Type().Underlying().(*types.Basic); ok && b.Kind() == types.Bool && f.Owner == r.Owner {
+							modes[f.Field] = true
+						}
+					}
+				}
+			})
+		}
+		for _, fn := range funcs {
+			var sends []*ssa.Send
+			allInstrs(fn, func(i ssa.Instruction) {
+				sd, ok := i.(*ssa.Send)
+				if !ok {
+					return
+				}
+				rc, ok := loadedField(sd.Chan)
+				if !ok || rc.Field != sl.ch {
+					return
+				}
+				if rs, ok := loadedField(sd.X); ok && rs.Field == sl.slot {
+					return // the flush itself
+				}
+				sends = append(sends, sd)
+			})
+			if len(sends) == 0 {
+				continue
+			}
+			flow := mustFlow(fn, facts{}, func(f facts, i ssa.Instruction) facts {
+				switch x := i.(type) {
+				case *ssa.Send:
+					if rs, ok := loadedField(x.X); ok && rs.Field == sl.slot {
+						return f.with("empty")
+					}
+				case *ssa.Store:
+					if r, ok := fieldOf(x.Addr); ok && r.Field == sl.slot {
+						if isNilConst(x.Val) {
+							return f.with("empty")
+						}
+						return f.without(func(s string) bool { return s == "empty" })
+					}
+				}
+				return f
+			}, func(f facts, b *ssa.BasicBlock, s int) facts {
+				for _, a := range edgeAtoms(b, s) {
+					if r, ok := loadedField(a.V); ok {
+						if r.Field == sl.slot && a.Nil == 1 {
+							f = f.with("empty")
+						}
+						if modes[r.Field] && a.True == -1 {
+							f = f.with("mode-off")
+						}
+					}
+				}
+				return f
+			})
+			for _, sd := range sends {
+				f, reach := flow.at(sd)
+				if !reach {
+					continue
+				}
+				n++
+				c.check(f.has("empty") || f.has("mode-off"), rule, fmt.Sprintf("%s: send on %s while %s may hold an item#%d", fnKey(fn), sl.ch.Name(), sl.slot.Name(), countKey(c, rule, fnKey(fn)+": send on ")+1), sd.Pos(),
+					"the slot is known empty (or the hold-back mode is off) when another item is sent",
+					fmt.Sprintf("an item is sent on %s while an earlier one may still be held back in %s: the later item overtakes the held one (entries arrive out of order) and what arrives for the held one afterwards (its STATUS) is attached to the wrong entry or dropped", sl.ch.Name(), sl.slot.Name()))
+			}
+		}
+	}
+	if n == 0 {
+		c.unresolvedRoot("sends that could overtake a held-back item")
+	}
+}
+
+// ruleAndSharesElements: C19.k. SearchCriteria.And merges list fields by
+// appending the operand's list to the receiver's — the elements themselves,
+// not copies: a number set carries identity (the SearchRes marker `$` is
+// recognised by its data pointer), so an element-wise copy turns `$` into an
+// empty set and the conjunct is lost.
+func ruleAndSharesElements(c *Ctx, rule string) {
+	p := c.P
+	and := p.Func("", "SearchCriteria", "And")
+	if and == nil || len(and.Params) != 2 {
+		c.unresolvedRoot("(*imap.SearchCriteria).And")
+		return
+	}
+	recv, other := and.Params[0], and.Params[1]
+	n := 0
+	for _, g := range withAnon(and) {
+		allInstrs(g, func(i ssa.Instruction) {
+			st, ok := i.(*ssa.Store)
+			if !ok {
+				return
+			}
+			r, ok := fieldOf(st.Addr)
+			if !ok || r.Field == nil || (r.Base != ssa.Value(recv) && paramOf(r.Base) != recv) {
+				return
+			}
+			if _, isSlice := r.Field.Type().Underlying().(*types.Slice); !isSlice {
+				return
+			}
+			n++
+			okShape := false
+			if call, ok := st.Val.(*ssa.Call); ok {
+				if b, ok := call.Call.Value.(*ssa.Builtin); ok && b.Name() == "append" && len(call.Call.Args) == 2 {
+					r0, ok0 := loadedField(call.Call.Args[0])
+					r1, ok1 := loadedField(call.Call.Args[1])
+					if ok0 && ok1 && r0.Field == r.Field && r1.Field == r.Field &&
+						(r0.Base == ssa.Value(recv) || paramOf(r0.Base) == recv) && (r1.Base == ssa.Value(other) || paramOf(r1.Base) == other) {
+						okShape = true
+					}
+				}
+			}
+			c.check(okShape, rule, "And: "+r.Field.Name()+" = append(criteria."+r.Field.Name()+", other."+r.Field.Name()+"...)", instrPos(st),
+				"the operand's elements are appended as they are",
+				"the list field "+r.Field.Name()+" is not merged by appending the operand's own elements (they are rebuilt or copied one by one): a copied number set loses its identity, so the `$` (SEARCHRES) marker degenerates into an empty set and that conjunct matches nothing")
+		})
+	}
+	if n == 0 {
+		c.unresolvedRoot("stores into list fields of the receiver in And")
+	}
+}
+
+// ruleDecodedValueNotOverwritten: C02.n. A local that a decoder call has
+// successfully filled is read before another decoder call fills it again:
+// decoding a second token into the variable that still holds the first one
+// (a dropped shadowing declaration) silently replaces the operand the client
+// sent — the mailbox name by a parameter keyword, say.
+func ruleDecodedValueNotOverwritten(c *Ctx, rule string, pkgs ...string) {
+	p := c.P
+	n := 0
+	for _, fn := range p.SrcFuncs(pkgs...) {
+		// decoder calls with the address of a local
+		type wr struct {
+			call ssa.CallInstruction
+			cell *ssa.Alloc
+		}
+		var writes []wr
+		cells := map[*ssa.Alloc]bool{}
+		allInstrs(fn, func(i ssa.Instruction) {
+			call, ok := i.(ssa.CallInstruction)
+			if !ok || !(isDecoderMethodCall(call) || decodesInto(p, call)) {
+				return
+			}
+			for _, a := range call.Common().Args {
+				if al, ok := a.(*ssa.Alloc); ok {
+					if b, ok := al.Type().Underlying().(*types.Pointer).Elem().Underlying().(*types.Basic); ok && b.Info()&types.IsString != 0 {
+						writes = append(writes, wr{call, al})
+						cells[al] = true
+					}
+				}
+			}
+		})
+		if len(writes) < 2 {
+			continue
+		}
+		entry := facts{}
+		for al := range cells {
+			entry = entry.with("fresh:" + al.Name())
+		}
+		branched := map[ssa.CallInstruction]bool{}
+		for _, b := range fn.Blocks {
+			for s := range b.Succs {
+				for _, a := range edgeAtoms(b, s) {
+					if cl, _ := callOf(a.V); cl != nil {
+						branched[cl] = true
+					}
+				}
+			}
+		}
+		gen := func(f facts, i ssa.Instruction) facts {
+			switch x := i.(type) {
+			case *ssa.UnOp:
+				if al, ok := x.X.(*ssa.Alloc); ok && cells[al] && x.Op == token.MUL {
+					return f.with("fresh:" + al.Name())
+				}
+			case *ssa.Store:
+				if al, ok := x.Addr.(*ssa.Alloc); ok && cells[al] {
+					return f.with("fresh:" + al.Name())
+				}
+			case ssa.CallInstruction:
+				isDec := isDecoderMethodCall(x) || decodesInto(p, x)
+				for _, a := range x.Common().Args {
+					if al, ok := a.(*ssa.Alloc); ok && cells[al] {
+						if !isDec {
+							f = f.with("fresh:" + al.Name()) // handed to someone who reads it
+						} else if !branched[x] {
+							f = f.without(func(s string) bool { return s == "fresh:"+al.Name() })
+						}
+					}
+				}
+				// closures capturing the cell read it
+				if mc, ok := i.(*ssa.MakeClosure); ok {
+					for _, bnd := range mc.Bindings {
+						if al, ok := bnd.(*ssa.Alloc); ok && cells[al] {
+							f = f.with("fresh:" + al.Name())
+						}
+					}
+				}
+			case *ssa.MakeClosure:
+				for _, bnd := range x.Bindings {
+					if al, ok := bnd.(*ssa.Alloc); ok && cells[al] {
+						f = f.with("fresh:" + al.Name())
+					}
+				}
+			}
+			return f
+		}
+		edge := func(f facts, b *ssa.BasicBlock, s int) facts {
+			for _, a := range edgeAtoms(b, s) {
+				cl, _ := callOf(a.V)
+				if cl == nil || !(isDecoderMethodCall(cl) || decodesInto(p, cl)) {
+					continue
+				}
+				success := a.True == 1 || a.Nil == 1 && isErrorType(a.V.Type())
+				if !success {
+					continue
+				}
+				for _, arg := range cl.Common().Args {
+					if al, ok := arg.(*ssa.Alloc); ok && cells[al] {
+						f = f.without(func(s string) bool { return s == "fresh:"+al.Name() })
+					}
+				}
+			}
+			return f
+		}
+		flow := mustFlow(fn, entry, gen, edge)
+		// cells captured by closures are read elsewhere: skip them
+		captured := map[*ssa.Alloc]bool{}
+		allInstrs(fn, func(i ssa.Instruction) {
+			if mc, ok := i.(*ssa.MakeClosure); ok {
+				for _, bnd := range mc.Bindings {
+					if al, ok := bnd.(*ssa.Alloc); ok {
+						captured[al] = true
+					}
+				}
+			}
+		})
+		for _, w := range writes {
+			if captured[w.cell] {
+				continue
+			}
+			f, reach := flow.at(w.call.(ssa.Instruction))
+			if !reach {
+				continue
+			}
+			n++
+			key := fmt.Sprintf("%s: %s filled by %s#%d", fnKey(fn), w.cell.Comment, callKey(w.call), countKey(c, rule, fmt.Sprintf("%s: %s filled by %s#", fnKey(fn), w.cell.Comment, callKey(w.call)))+1)
+			c.check(f.has("fresh:"+w.cell.Name()), rule, key, w.call.Pos(),
+				"what the variable held before has been read (or nothing had been decoded into it)",
+				fmt.Sprintf("%s still holds a value decoded earlier that has not been read on some path, and is decoded into again here: the first operand is replaced by the second token (the backend receives the wrong argument)", w.cell.Comment))
+		}
+	}
+	if n == 0 {
+		c.unresolvedRoot("locals filled by decoder calls")
+	}
+}
